@@ -257,10 +257,23 @@ func TestPropIdlePeerStalls(t *testing.T) {
 		nBefore := rapid.SampledFrom([]int{0, 0, 1, 5}).Draw(t, "updatesBeforeStall")
 		nStalled := rapid.SampledFrom([]int{1, 10, 63, 64, 65, 66, 67, 70, 100, 150}).Draw(t, "updatesWhileStalled")
 		idle := rapid.IntRange(0, 5).Draw(t, "idle") != 0 // otherwise the peer just sits in the selected state
+		// or: the peer stops reading and then asks for message data; the
+		// server's writes to it block and may only do so until its write
+		// timeouts (30 s per response, 5 min per literal; shortened 1000 times
+		// by the transport here) have passed - other connections on the same
+		// mailbox must not be held up any longer than that
+		stalledFetch := ""
+		if rapid.IntRange(0, 2).Draw(t, "stalledFetch") == 0 {
+			idle = false
+			stalledFetch = rapid.SampledFrom([]string{"FETCH 1:* (BODY.PEEK[HEADER])", "FETCH 1:2 (FLAGS BODY.PEEK[HEADER.FIELDS (Subject)])", "FETCH 1:* (BODY.PEEK[])", "FETCH 1:* (FLAGS INTERNALDATE)", "UID FETCH 1:* (BODY.PEEK[TEXT]<0.10>)"}).Draw(t, "fetch")
+		}
 		end := rapid.SampledFrom([]string{"reset", "reset", "close", "resume-logout"}).Draw(t, "end")
 		kind := rapid.SampledFrom([]string{"store", "store", "append-expunge"}).Draw(t, "changes")
 		what := fmt.Sprintf("peer A %s on INBOX, stops reading, peer B makes %d+%d %s changes, A ends with %s",
 			map[bool]string{true: "idles", false: "selected"}[idle], nBefore, nStalled, kind, end)
+		if stalledFetch != "" {
+			what = fmt.Sprintf("peer A has INBOX selected, stops reading and sends %q, peer B makes %d+%d %s changes, A ends with %s", stalledFetch, nBefore, nStalled, kind, end)
+		}
 
 		a, b := w.env.Dial(), w.env.Dial()
 		defer a.C.Close()
@@ -306,6 +319,11 @@ func TestPropIdlePeerStalls(t *testing.T) {
 			change("A reading")
 		}
 		a.C.StallPeerWrites(true)
+		if stalledFetch != "" {
+			a.S.ScaleWriteDeadlines(1000)
+			a.Send("f1 " + stalledFetch + "\r\n")
+			ev.Class("idle-peer-stalls:stalled FETCH")
+		}
 		for i := 0; i < nStalled; i++ {
 			change("A not reading")
 		}
